@@ -153,12 +153,10 @@ def copy(from_torrent, to_torrent):
     `to_torrent`
     """
     source_info = from_torrent.metainfo['info']
-    to_torrent.metainfo['info']['pieces'] = source_info['pieces']
-    to_torrent.metainfo['info']['piece length'] = source_info['piece length']
     if 'files' in from_torrent.metainfo['info']:
         # Confirm both file lists are identical while ignoring order
         def make_sortable(files):
-            return [tuple(f.items()) for f in files]
+            return [(f['length'], f['path']) for f in files]
 
         # Only include "length" and "files" fields
         source_files = [
@@ -166,9 +164,13 @@ def copy(from_torrent, to_torrent):
             for file in source_info['files']
         ]
 
+        # Do not change `to_torrent` unless everything can be copied
         assert sorted(make_sortable(to_torrent.metainfo['info']['files'])) \
             == sorted(make_sortable(source_files))
 
+    to_torrent.metainfo['info']['pieces'] = source_info['pieces']
+    to_torrent.metainfo['info']['piece length'] = source_info['piece length']
+    if 'files' in from_torrent.metainfo['info']:
         # Copy file order from `source_info`
         to_torrent.metainfo['info']['files'] = source_files
 
